@@ -227,6 +227,9 @@ impl Report {
                         r.wall_s,
                         if r.caps_hit.is_empty() { String::new() } else { format!(" CAPS: {:?}", r.caps_hit) }
                     );
+                    if r.seeds_total > 0 && r.seeds_skipped == r.seeds_total {
+                        self.machinery_errors.push(format!("job {}: no seed state could be built", r.job));
+                    }
                     self.states += r.states;
                     self.transitions += r.transitions;
                     self.validated += r.validated;
